@@ -1,5 +1,5 @@
 SPECIFICATION Spec
-CONSTANT Small = FALSE
+CONSTANT Small = TRUE
 INVARIANT Identity
 INVARIANT CountBound
 INVARIANT Isolation
